@@ -19,6 +19,26 @@ var unOps = map[string]func(a cty.Value) cty.Value{
 	"ONeg": cty.Value.Negate, "OAbs": cty.Value.Absolute, "ONot": cty.Value.Not, "OLen": cty.Value.Length,
 }
 
+// orderSensitive: operations that go through Value.Equals, whose object / map branches range
+// over Go maps with data-dependent early exits
+var orderSensitive = map[string]bool{"OEq": true, "ONe": true, "OLe": true, "OGe": true}
+
+// stableOp runs op repeatedly; stable=false when the implementation's answer varies between calls
+func stableOp(op string, args []cty.Value) (ret cty.Value, panicked bool, stable bool) {
+	ret, panicked, _ = runOp(op, args)
+	stable = true
+	if !orderSensitive[op] {
+		return
+	}
+	for k := 0; k < 24; k++ {
+		r2, p2, _ := runOp(op, args)
+		if p2 != panicked || (!p2 && !r2.RawEquals(ret)) {
+			return ret, panicked, false
+		}
+	}
+	return
+}
+
 func runOp(op string, args []cty.Value) (ret cty.Value, panicked bool, msg string) {
 	panicked, msg = recovered(func() {
 		if f, ok := binOps[op]; ok {
@@ -42,8 +62,13 @@ func (c *Ctx) wf(v cty.Value, where string) {
 
 // addOp runs op on args and records the correspondence case.
 func (c *Ctx) addOp(class, op string, args []cty.Value, nontrivial bool) (cty.Value, bool) {
-	ret, p, _ := runOp(op, args)
+	ret, p, stable := stableOp(op, args)
 	desc := map[string]interface{}{"op": op, "args": showAll(args)}
+	if !stable {
+		c.Count("skipped_unstable_equals")
+		c.Fail(c.P.ID+"/equals-order-dependent", op+" gives different answers on repeated calls with the same operands (Go map iteration order decides between False and unknown)", desc)
+		return ret, p
+	}
 	if !p {
 		c.wf(ret, op)
 		desc["result"] = cq.Show(ret)
